@@ -291,7 +291,12 @@ func genSpec(h *vh.H, name string, wide bool) *Spec {
 		}
 	case "enum":
 		n := 1 + h.Rng.IntN(4)
-		names := []string{"ALPHA", "BETA", "GAMMA", "DELTA", "EPSILON"}
+		names := []string{"ALPHA", "BETA", "GAMMA", "DELTA", "EPSILON", "ZETA", "ETA", "THETA", "IOTA", "KAPPA", "LAMBDA", "MU", "NU", "XI"}
+		wideEnum := wide && h.Chance(1, 12)
+		if wideEnum {
+			// 11..13 options, every one described below (value index >= 10: see genSchemaOp)
+			n = 11 + h.Rng.IntN(3)
+		}
 		s.EOpts = append([]string{}, names[:n]...)
 		if h.Chance(1, 4) {
 			// enum values live in the package scope: keep declared prefixes distinct per field
@@ -311,9 +316,9 @@ func genSpec(h *vh.H, name string, wide bool) *Spec {
 			if h.Chance(1, 4) {
 				s.EDesc = ps(vh.Pick(h, descs))
 			}
-			if h.Chance(1, 2) {
+			if h.Chance(1, 2) || wideEnum {
 				s.EODesc = make([]string, len(s.EOpts))
-				all := h.Chance(1, 3)
+				all := h.Chance(1, 3) || wideEnum
 				for i := range s.EODesc {
 					if all || h.Chance(1, 2) {
 						s.EODesc[i] = vh.Pick(h, descs)
@@ -614,6 +619,12 @@ func genRulesOp(h *vh.H, i int) string {
 
 func genSchemaOp(h *vh.H, i int) string {
 	n := 1 + h.Rng.IntN(4)
+	if h.Chance(1, 12) {
+		// wide roots: 11..14 properties. Source locations are numbered per element, and the printed
+		// .proto text orders a message's elements by them: an index >= 10 is where a textual instead of
+		// a numeric ordering of location paths shows (seeded C04-m7) — order through the text path
+		n = 11 + h.Rng.IntN(4)
+	}
 	used := map[string]bool{}
 	var segs []string
 	root := &Root{Kind: "obj"}
